@@ -30,7 +30,10 @@ def correspondence(ctx, model_available=True):
     spec_failures = []
     stats = {"undo_pairs": 0, "walked_back": 0, "restarts": 0}
     kinds = {}
-    for s in sessions:
+    # long histories, on the real shell alone: undo walks back through every one of them, however many there are
+    # (seed C13h kept only the 48 newest snapshots)
+    long_sessions = dp.make_sessions(rng, 2 if quick else 30, lambda k: dc.HISTORY_KINDS, sizes=(55, 70) if quick else (55, 90, 140))
+    for s in sessions + long_sessions:
         for _, t in s["cmds"]:
             k = t.strip("()").split()[0]
             kinds[k] = kinds.get(k, 0) + 1
@@ -43,12 +46,12 @@ def correspondence(ctx, model_available=True):
     dist.update({k: res[k] for k in ("sessions", "steps", "out_of_fuel")})
     dist["command_kinds"] = kinds
     return {
-        "cases": len(sessions), "nontrivial": stats["undo_pairs"],
+        "cases": len(sessions) + len(long_sessions), "nontrivial": stats["undo_pairs"],
         "rule": "histories over next/step/continue/assign/execute/goto/break/clear/on/off/restart interleaved with "
                 "undo on programs with data, calls and loops: real Shell vs Model/Session after every command and the "
                 "whole chain of saved snapshots at the end; on the real shell alone: command+undo compared with the "
                 "state before (machine, breakpoints, call depth, every saved snapshot, `info` text), undo down to "
-                "'Nothing to undo' compared with the initial state, restart compared with a fresh session",
+                "'Nothing to undo' compared with the initial state (also after histories of 55..140 commands), restart compared with a fresh session",
         "distribution": dist, "samples": [dp.session_json(sessions[0])] if sessions else [],
         "disagreements": res["disagreements"], "spec_failures": spec_failures[:5],
         "model_vs_impl_agree": res["agree"], "model_available": model_available,
@@ -57,7 +60,8 @@ def correspondence(ctx, model_available=True):
 
 def search(ctx, breaks):
     out = []
-    for s in dp.make_sessions(ctx.rng, 150, lambda k: dc.HISTORY_KINDS, sizes=(4, 10, 18)):
+    for s in (dp.make_sessions(ctx.rng, 150, lambda k: dc.HISTORY_KINDS, sizes=(4, 10, 18)) +
+              dp.make_sessions(ctx.rng, 6, lambda k: dc.HISTORY_KINDS, sizes=(55, 70, 90))):
         p, _ = dp.undo_oracle(s)
         if p:
             out.append({"what": p, "session": dp.session_json(s)})
